@@ -7,7 +7,7 @@ from harness.core import LaneBase
 
 class Lane(LaneBase):
     PROP = 'C01'
-    THEOREMS = ['CG.selfDepR_iff']
+    THEOREMS = 'auto'
     AUDIT = 'CG/Audit/C01.lean'
     DIFF_IS_FAILURE = True
     RULE = ('random histories of 3-25 public mutator calls on both classes (about one third aimed at a specific '
